@@ -90,9 +90,10 @@ func mergeStates(a, b *State) *State {
 		if vb, ok := b.vars[k]; ok {
 			if sameValue(va, vb) {
 				r.vars[k] = va
-			} else {
-				r.vars[k] = mergeValues(c, va, vb)
+			} else if mv, ok := tryMerge(c, va, vb); ok {
+				r.vars[k] = mv
 			}
+			// an unmergeable variable is dropped: reading it later is reported as unsupported, never guessed
 		}
 	}
 	for id, oa := range a.heap {
@@ -195,4 +196,17 @@ type SplitSpec struct {
 	Term   *Term
 	Lo, Hi int64
 	Text   string
+}
+
+func tryMerge(c *Term, a, b Value) (v Value, ok bool) {
+	defer func() {
+		if r := recover(); r != nil {
+			if _, isU := r.(unsupported); isU {
+				v, ok = nil, false
+				return
+			}
+			panic(r)
+		}
+	}()
+	return mergeValues(c, a, b), true
 }
